@@ -416,8 +416,22 @@ func Run(p Prop, cfg Config) (*Output, error) {
 
 	runs := make([]caseRun, len(cases))
 	seen := map[string]bool{}
+	failing := 0
 	for i, ops := range cases {
+		if failing >= 12 && cfg.ReplayFile == "" {
+			// enough concrete failing inputs: on a broken tree every further failing case may cost
+			// a timeout, and the verdict is already decided
+			Notes["stopped_early"] = fmt.Sprintf("after %d of %d cases: %d cases already fail the property oracle", i, len(cases), failing)
+			cases, runs = cases[:i], runs[:i]
+			break
+		}
 		runs[i] = runCase(p, ops)
+		for _, r := range runs[i].res {
+			if r.Fail != "" {
+				failing++
+				break
+			}
+		}
 		out.Evaluations += len(ops)
 		h := hashOps(ops)
 		if !seen[h] {
